@@ -9,6 +9,9 @@ CHECKS = {
  "C09": (E3, "runtime monitoring of generator runs: sha256/size/mtime manifests of the output tree after every step of real tool invocations (K fresh generator processes with varied GOMAXPROCS, two generations in one process, and gen/example/edit histories through the REAL goa CLI built from /repo), compared file by file",
          "Specs rich in multi-key Meta are generated K times in fresh processes and twice in one process; gen,gen / gen,example,edit,example / example,gen / stray-file histories are run through the real cmd/goa binary over one directory; every difference in file list, bytes or mtime of a pre-existing example file is a violation keyed by file role.",
          "Identical command lines and output paths across runs (the header comment embeds them); designs goa cannot generate (C01) are skipped; two same-process regeneration differences are listed known findings."),
+ "C10": (E2, "runtime monitoring of generator runs: generated gRPC designs (payload shapes x streaming kinds x metadata mappings x hostile names) run through the real goa generators in a fresh process each; the emitted .proto is parsed by the lab's own strict proto3 parser and compared with the spec (field numbers, uniqueness, one rpc per method with the designed streaming direction); the generated Go is compiled against stand-in *.pb.go files that follow protoc-gen-go's naming algorithm",
+         "A fixed matrix plus PRNG-generated gRPC designs; every generated proto file is parsed and judged against the spec; every generated gRPC package is type-checked against the stand-in message API; generator panics/timeouts are violations keyed by stack.",
+         "protoc/protoc-gen-go are absent: well-formedness is decided by the lab's proto3 parser and the Go API by stand-in pb.go files (an assumption, stated in the evidence). The message round-trip clause is decided only where the stand-in runtime (pbrt loopback) can carry it; designs hit by the open known findings cannot be driven."),
  "C11": (E2, "runtime monitoring: instrumented roots/expressions record every DSL/Prepare/Validate/Finalize callback of the real eval.RunDSL; phase-barrier automaton + reference topological order + error accounting over the recorded log",
          "Every digraph on <=4 labelled roots (cyclic ones included) x every registration order is run through the real eval engine (exhaustive for that sub-space), plus random 5-6 root cases with dynamic registration and error scripts; the callback log is judged by an independent automaton.",
          "Trusts the instrumented test roots; dependency targets never registered and ReportError from Prepare/Finalize are outside the envelope."),
